@@ -30,6 +30,9 @@ BUILT.update({
 BUILT["C06"] = ("Lean 4 layout theorems (little-endian fields, header 64 / entry 288 with field offsets, reserved zeros, string and track layout, EMG bias, Tdf.new image) with the Lean encoders/decoders as the independent layout-driven codec; two-way inverse from C01+C12+C02; + byte-equality correspondence both directions incl. the BTS capture",
             "The model's encoders are the independent encoder of the property; theorems pin the layout for all values; real _write output is compared byte for byte, real decoders run on model-encoded bytes, entries/headers/Tdf.new likewise, and the capture (8 blocks, pinned sha-256) is decoded by both and compared in full.",
             NOTE + " The capture checks are tests on one input.", "DESIGN.md §6 C06")
+BUILT["C08"] = ("Lean 4 theorems on the access-mode state machine (allow_write/enter/exit/mutators/readers incl. implicit contexts): disk changes only through a mutator with a writable handle, such a handle only comes from enter-after-allow_write, every other mode refuses, readers pure, implicit handles closed; + exhaustive mutator/reader x mode matrix and seeded interleavings on the real object",
+            "Proof over the model for every state and trace; the real Tdf object is driven through the full matrix (8 mutators + 20 readers x 7 modes) and seeded interleavings, observing raised?/bytes changed?/handler.closed, judged by the model and by an independent python reference monitor.",
+            NOTE + " Which of decorator/PermissionError/closed handle/read-only handle refuses a call is not modelled, only that it raises; nested with-blocks on one object are outside.", "DESIGN.md §6 C08")
 CONT = "Lean 4 refinement proof: byte-level L0 model of add/remove/replace/setters (seek/write/truncate) simulates the list-of-blocks spec on every well-formed layout (add_sim, remove_sim, run_sim by induction over histories, any table length); "
 BUILT.update({
     "C03": (CONT + "corollary wfB(image)=true; + seeded history correspondence with Lean's wfB judging the real bytes after every call",
